@@ -48,6 +48,18 @@ def do_case(ctx, inp):
         ctx.fail("default-prio-vector-misaligned", {"dpv": dpv, "ids": ids, "default_prios": dp}); return
     if len(objs) != len(prios):
         ctx.fail("number-of-objectives", {"got": len(objs), "want": len(prios)}); return
+    # the statement's default levels, independently of the tags the code set: a column is a "non-default branch" only if
+    # it is used as such wherever it occurs: every parent of the node carries a default (the helper node a defaulted
+    # Any/Xor generates around its non-default alternatives is used nowhere else); everything else is a plain column
+    parents_ok = {}
+    for n_ in subs(t):
+        if n_["k"] == "node":
+            for k in n_["kids"]:
+                if k["k"] == "node":
+                    parents_ok[k["id"]] = parents_ok.get(k["id"], True) and bool(n_.get("default"))
+    dpv_stmt = [-2 if (dpv[j] == -2 and parents_ok.get(i, False)) else -1 for j, i in enumerate(ids)]
+    if dpv_stmt != dpv:
+        ctx.tags["default-level-tag-on-a-column-that-is-no-helper-node"] += 1
     feas = None
     if len(ids) <= (12 if ctx.quick else 15):
         feas = [x for x in itertools.product((0, 1), repeat=len(ids)) if all(row_ok(r, dict(zip(ids, x))) for r in rows)]
@@ -68,7 +80,7 @@ def do_case(ctx, inp):
             if len(pairs) > (400 if ctx.quick else 4000):
                 pairs = ctx.rng.sample(pairs, 400 if ctx.quick else 4000)
             for x, y in pairs:
-                lx, ly = level_sums(x, ids, dpv, user), level_sums(y, ids, dpv, user)
+                lx, ly = level_sums(x, ids, dpv_stmt, user), level_sums(y, ids, dpv_stmt, user)
                 vx, vy = sum(a_ * b for a_, b in zip(w, x)), sum(a_ * b for a_, b in zip(w, y))
                 if (lx > ly) != (vx > vy) or (lx == ly) != (vx == vy):
                     ctx.fail("objective-does-not-rank-lexicographically",
